@@ -271,6 +271,22 @@ impl OutputChecker<u8> for OCh {
   }
 }
 
+/// Output checker with a genuinely zero-sized stamp type `()` whose `check` still looks at the output (`OC::UnitPred`).
+#[derive(Clone, Copy, PartialEq, Eq, Hash, Debug)]
+pub struct UnitCh;
+
+impl OutputChecker<u8> for UnitCh {
+  type Stamp = ();
+  fn stamp(&self, output: &u8) {
+    log(Ev::OcStamp(OC::UnitPred, *output, OStamp::Unit));
+  }
+  fn check(&self, output: &u8, _stamp: &()) -> Option<impl Debug> {
+    let consistent = OC::UnitPred.consistent(*output, OStamp::Unit);
+    log(Ev::OcCheck(OC::UnitPred, *output, OStamp::Unit, consistent));
+    if consistent { None } else { Some(*output) }
+  }
+}
+
 // ------------------------------------------------------------------------------------------------ task
 
 /// The task type: interprets body `self.0` of the worker's current program.
@@ -285,6 +301,7 @@ impl<C: Context> Env for RealEnv<'_, C> {
     let out = match oc {
       OC::PieEquals => self.ctx.require(&VTask(callee), EqualsChecker),
       OC::PieAlways => self.ctx.require(&VTask(callee), AlwaysConsistent),
+      OC::UnitPred => self.ctx.require(&VTask(callee), UnitCh),
       o => self.ctx.require(&VTask(callee), OCh(o)),
     };
     log(Ev::RetReq(caller, stmt, callee, out));
